@@ -17,7 +17,7 @@ import (
 
 func init() {
 	register(&Prop{
-		ID: "C19", Level: "fault_enumeration", Quick: 16 * 12, Thorough: 120 * 12,
+		ID: "C19", Level: "fault_enumeration", Quick: 80 * 12, Thorough: 2500 * 12,
 		Rule: "trial = (command form, generated valid input); every Write call index k=1..W+1 of the fault-free run x {write_error_once, write_error_sticky, short_write} (+ every Create for toPairAlign directory output) is enumerated, each under several seeded schedules; a trial is non-trivial if at least one injected fault actually fired; distinct = distinct (input, options)",
 		Gen:   genC19,
 		Check: checkC19,
